@@ -859,7 +859,10 @@ class WorkerPool:
             # anymore, and the order mode of this call would leak into the next one
             if not completed:
                 self.terminate()
-                self._worker_comms.clear_keep_order()
+
+            # The order mode belongs to this call. An ordered imap can still be handing out buffered results long after
+            # this (inner) call has finished, and the next call must not inherit its order mode
+            self._worker_comms.clear_keep_order()
 
             if tqdm_manager_owner:
                 tqdm.set_lock(original_tqdm_lock)
